@@ -1,7 +1,8 @@
 (* C20: executable model of pkg/nathole Controller: ListenClient / CloseClient, HandleVisitor, HandleClient,
    HandleReport as ATOMIC STEPS at lock / channel granularity, so that a list of events is a schedule.
    HandleVisitor of one request = [EvVisitor] (pre-check, or lookup + signature + allowUsers + insert under the lock)
-   ; [EvDeliver] (the unbuffered send of the sid to the proxy's goroutine) ; [EvWake] | [EvTimeout] (the select)
+   ; [EvDeliver] | [EvGiveUp] (the select on the unbuffered send of the sid to the proxy's goroutine and
+     time.After(NatHoleTimeout): repaired F-C20b) ; [EvWake] | [EvTimeout] (the select on notifyCh)
    ; [EvAnalyse] ; [EvSendV], [EvSendC] (the two concurrent sends) ; [EvSleepDone] (end of the sleep, deferred delete).
    Model only: no proofs here. *)
 From FRP Require Export Model.NatHole.
@@ -10,7 +11,7 @@ Open Scope Z_scope.
 Record ctl_cfg := { cc_name : bytes; cc_sk : bytes; cc_allow : list bytes; cc_chan : Z }.
 
 Inductive ctl_pc :=
-| PcNotify                       (* session inserted; blocked in  clientCfg.sidCh <- sid *)
+| PcNotify                       (* session inserted; in the select on  clientCfg.sidCh <- sid / time.After *)
 | PcWait                         (* in the select on notifyCh / time.After(NatHoleTimeout) *)
 | PcAnalyse                      (* woken by the client's message *)
 | PcSend (vsent csent : bool)    (* the two sending goroutines *)
@@ -46,6 +47,7 @@ Inductive ctl_ev :=
 | EvClose (name : bytes)
 | EvVisitor (vm : nh_vmsg) (tr : Z) (user : bytes)
 | EvDeliver (t : Z)
+| EvGiveUp (t : Z)                 (* the hand-over timed out: return, deferred delete *)
 | EvClient (cm : nh_cmsg) (tr : Z)
 | EvWake (t : Z)
 | EvTimeout (t : Z)
@@ -153,6 +155,14 @@ Section Ctl.
                           else None
             | _ => None
             end
+        | None => None
+        end
+    | EvGiveUp t =>
+        match ctl_find t (st_sess st) with
+        | Some s => match ss_pc s with
+                    | PcNotify => Some (ctl_with_sess st (ctl_update t (ctl_delete PcDoneTimeout) (st_sess st)), [])
+                    | _ => None
+                    end
         | None => None
         end
     | EvClient cm tr =>
@@ -285,6 +295,12 @@ Section Ctl.
 
   (* some step of HandleVisitor invocation s can still be taken *)
   Definition ctl_sess_enabled (st : ctl_state) (s : ctl_sess) : bool :=
+    match ss_pc s with
+    | PcNotify | PcWait | PcAnalyse | PcSend _ _ | PcSleep => true
+    | PcDoneTimeout | PcDoneComplete => false
+    end.
+  (* the same without the [EvGiveUp] branch: the code before the repair of F-C20b (regression witness only) *)
+  Definition ctl_sess_enabled_before_repair (st : ctl_state) (s : ctl_sess) : bool :=
     match ss_pc s with
     | PcNotify => ctl_zin (ss_chan s) (st_alive st)
     | PcWait | PcAnalyse | PcSend _ _ | PcSleep => true
